@@ -127,3 +127,6 @@ RULES = {
     "C17": "Random histories (length <= 32) per type (34 vector types, Quat, DQuat): construct through one of 8 constructors, then interleave writes through field assignment / IndexMut / AsMut / with_* and after every step compare every read path (fields, Index, to_array, write_to_slice, Into<array>, Into<tuple>, AsRef, Debug, Display, Display with precision) with a shadow lane model bit-for-bit; named constants against documented values. Every step is an event; distinct = distinct (type, write path, lane, history length).",
     "C01": "Every event is one call of a public operator/method of a float vector type on operands from (a) the special-value lattice with every value (pair) placed in every lane, (b) hostile random lanes (random bits, exact ties, values around 2^23/2^31, huge quotients), (c) a stride sweep (quick) or all 2^32 f32 patterns (thorough) for the rounding family; each output lane is compared with the Rust primitive applied to that lane (IEEE equality). An event is non-trivial when the operand lanes are not all equal and the expected result differs from the operand; distinct = distinct (type, operation, per-lane input-class tuple) among non-trivial events, summed over configurations.",
 }
+
+for _p, _k in (("C07", "registry"), ("C08", "registry"), ("C18", "registry"), ("C20", "registry"), ("C14", "conv"), ("C16", "swizzle")):
+    PLAN[_p]["audit"] = _k
